@@ -647,15 +647,13 @@ def run_conv_transpose(ctx, c, npr):
 
   def judge(out, variant):
     mech = 'conv_transpose.formula' + variant
-    if c['padding'] == 'CIRCULAR' and tk and not is_close(out, want, cdt, bound):
-      # which convention does the output follow?  the adjoint of the CIRCULAR forward Conv (what transpose_kernel
-      # promises) or only the "+1 on the right" split of the wrap padding
-      alt = L().conv_transpose(xr, Kr, Br, circular_convention='flax_comment', **rkw)
-      if is_close(out, alt, cdt, bound):
-        mech = 'conv_transpose.circular_transpose_kernel_not_adjoint'  # one finding for both APIs
-    close(ctx, mech, out, want, cdt, bound, detail=dict(padding=pm, api='nnx' if variant else 'linen'))
-    if mech != 'conv_transpose.formula' + variant:
-      ctx.event('oracle:conv_transpose.formula')
+    ref = want
+    if c['padding'] == 'CIRCULAR' and tk:
+      # transpose_kernel is documented only as "flips spatial axes and swaps the input/output channel axes of the kernel";
+      # how the wrap padding is split is not documented, so the reference follows that documented relation (the same
+      # scatter form as transpose_kernel=False applied to the flipped/swapped kernel), not the adjoint of Conv(CIRCULAR).
+      ref = L().conv_transpose(xr, Kr, Br, circular_convention='flax_comment', **rkw)
+    close(ctx, mech, out, ref, cdt, bound, detail=dict(padding=pm, api='nnx' if variant else 'linen'))
 
   judge(y, '')
   check_dtype(ctx, 'conv_transpose', y, cdt)
